@@ -365,10 +365,17 @@ def eval_cases(pid, header, fns, lines, shard_size=600, jobs=16):
 # --------------------------------------------------------------------------------------------
 
 def load_known():
+    """known_findings.json plus per-property files known_findings.d/*.json (lists of entries)."""
+    out = []
     p = os.path.join(VERIF, "known_findings.json")
-    if not os.path.exists(p):
-        return []
-    return json.load(open(p))
+    if os.path.exists(p):
+        out += json.load(open(p))
+    d = os.path.join(VERIF, "known_findings.d")
+    if os.path.isdir(d):
+        for f in sorted(os.listdir(d)):
+            if f.endswith(".json"):
+                out += json.load(open(os.path.join(d, f)))
+    return out
 
 
 def write_evidence(pid, ev):
